@@ -511,6 +511,7 @@ fn d(m: i64, scale: u32) -> String {
 }
 
 struct World {
+    latency: i64,
     n_assets: usize,
     instruments: Vec<(usize, usize)>,
 }
@@ -534,7 +535,7 @@ fn gen_init(rng: &mut Rng, mode: &str, malformed: bool) -> (String, World) {
         let a = rng.below(n_assets as u64) as usize;
         bals[a] = d(-rng.range(1, 10), 0);
     }
-    let k = rng.range(0, 3) as usize;
+    let k = if rng.chance(5) { 0 } else { rng.range(1, 3) as usize };
     let mut instruments: Vec<(usize, usize)> = (0..k)
         .map(|_| (rng.below(n_assets as u64) as usize, rng.below(n_assets as u64) as usize))
         .collect();
@@ -560,7 +561,7 @@ fn gen_init(rng: &mut Rng, mode: &str, malformed: bool) -> (String, World) {
             .map(|(b, q)| format!(" {b}:{q}"))
             .collect::<String>()
     );
-    (line, World { n_assets, instruments })
+    (line, World { latency: latency as i64, n_assets, instruments })
 }
 
 fn gen_open(rng: &mut Rng, w: &World, t: i64) -> String {
@@ -596,7 +597,7 @@ fn gen_open(rng: &mut Rng, w: &World, t: i64) -> String {
 
 fn gen_case(rng: &mut Rng, out: &mut Out, big: bool) {
     let is_async = rng.chance(70);
-    let malformed = !is_async && rng.chance(15);
+    let malformed = !is_async && rng.chance(25);
     let (line, w) = gen_init(rng, if is_async { "async" } else { "direct" }, malformed);
     out.line(line);
     let len = rng.range(0, if big { 60 } else { 25 });
@@ -633,8 +634,8 @@ fn gen_case(rng: &mut Rng, out: &mut Out, big: bool) {
         } else if r < 82 {
             out.line(format!("balances {t}"));
         } else if r < 94 {
-            // since around the exchange times seen so far
-            let since = t + rng.range(-60, 60);
+            // since: everything, or around the exchange times of the fills so far (t + latency/2)
+            let since = if rng.chance(30) { 0 } else { t + w.latency / 2 - rng.range(-2, 12) };
             out.line(format!("trades {t} {since}"));
         } else if r < 97 {
             out.line(format!("orders {t}"));
